@@ -10,6 +10,18 @@ from .common import base_name, construct_of, is_numpy_callable, project, resolve
 AX = "AX"
 
 
+def _same_branches(t, c):
+    from ..terms import T
+
+    return T("if", t.node, t.mod, cond=c, then=t.then, other=t.other)
+
+
+def _swapped(t, c):
+    from ..terms import T
+
+    return T("if", t.node, t.mod, cond=c, then=t.other, other=t.then)
+
+
 def axis_param_names(world, entry):
     """positions / names of the primitive's parameters that denote axes"""
     fx = facts.load("axis_params")
@@ -194,6 +206,13 @@ class AxisTaint:
             return None
         if o == "if":
             c = t.cond
+            # `if not c: A else: B` is `if c: B else: A`
+            from ..tutil import atom
+
+            a_, pol_ = atom(c)
+            if a_ is not c:
+                c = a_
+                t = _swapped(t, c) if not pol_ else _same_branches(t, c)
             # path facts on `isinstance(axis, tuple)`: a value normalised under that test is only used under it
             if c.op == "call" and c.fn.op == "ref" and c.fn.ref.qual in ("builtins.isinstance", "autograd.builtins.isinstance") and len(c.args) == 2:
                 k = self.key(c.args[0])
